@@ -466,6 +466,17 @@ def c03(tier, rng, fam='C03'):
             b.step('recv', c=1, n=2)
             b.step('trl', c=1)
             out.append(b.q().done())
+    # a handler that outlives the deadline its request carried while its caller (a peer without a deadline of its own:
+    # only the header says so) is still listening: what the handler returns is what is written - success included
+    for kind in ('unary', 'bidi'):
+        for k, h in enumerate(([ret(pay='late but fine')], [ret(code=8, msg='exhausted', det=1)], [ret(code=4, msg='my own deadline text')])):
+            b = B(fam, '%s handler outlives the deadline of its request, outcome %d' % (kind, k), rawcli=True, ser=True)
+            e = env(1, m=METH[kind], src='cliX', dst='srv', md=[['grpc-timeout', '50m']], c=101, **({'b': 'q'} if kind == 'unary' else {}))
+            b.step('hops', c=101, hp=[dict(o='ctxwait')] + ([dict(o='send', pay='after')] if kind == 'bidi' and k == 0 else []) + h)
+            b.step('inj', dir='c2s', env=e)
+            b.q()
+            b.step('adv', ms=60)
+            out.append(b.q().done())
     return out
 
 
